@@ -555,7 +555,7 @@ func remEvalOnce(d remCase, work string) (impl string, err error) {
 		// a timeout although the server was not stalling: the machine was too slow for --timeout 300ms
 		offered := s.Server == "serve" || (s.stalls() && s.Patient)
 		if !(s.stalls() && !s.Patient) && (exit == 108 || strings.Contains(out, "deadline exceeded")) {
-			return "", errInconclusive{fmt.Sprintf("step %d: spurious timeout", i)}
+			return "", errInconclusive{fmt.Sprintf("spurious timeout: step %d", i)}
 		}
 		if offered && s.URL != 2 && (s.Yes || s.Answer == "accept") {
 			approved[[2]int{s.URL, s.V}] = true
@@ -604,7 +604,8 @@ func remEvalOnce(d remCase, work string) (impl string, err error) {
 
 var remSeq struct {
 	sync.Mutex
-	n int
+	n       int
+	retries map[string]int
 }
 
 func evalRemote(d remCase) (string, string) {
@@ -627,6 +628,12 @@ func evalRemote(d remCase) (string, string) {
 		if _, ok := err.(errInconclusive); !ok {
 			break
 		}
+		remSeq.Lock()
+		if remSeq.retries == nil {
+			remSeq.retries = map[string]int{}
+		}
+		remSeq.retries[strings.SplitN(err.Error(), ":", 2)[0]]++
+		remSeq.Unlock()
 	}
 	return cl, "harness-error " + strings.ReplaceAll(last.Error(), "\n", " ")
 }
@@ -724,7 +731,7 @@ func runRemote(c *Ctx) {
 		c.Hit("pty-unavailable")
 	}
 	maxLen := c.Pick(5, 8)
-	n := c.Pick(260, 2600)
+	n := c.Pick(500, 6000)
 	cases := make([]remCase, 0, n)
 	for i := 0; i < n; i++ {
 		k := 2 + c.Rng.Intn(maxLen-1)
@@ -745,7 +752,7 @@ func runRemote(c *Ctx) {
 	}
 	type res struct{ cl, il string }
 	out := make([]res, len(cases))
-	workers := 10
+	workers := 12
 	var wg sync.WaitGroup
 	jobs := make(chan int)
 	for w := 0; w < workers; w++ {
@@ -791,6 +798,6 @@ func runRemote(c *Ctx) {
 		}
 		c.Emit(out[i].cl, out[i].il, d)
 	}
-	b, _ := json.Marshal(map[string]any{"pty": pty, "workers": workers})
+	b, _ := json.Marshal(map[string]any{"pty": pty, "workers": workers, "sequences_rerun": remSeq.retries})
 	c.Extra["remote"] = json.RawMessage(b)
 }
